@@ -2382,6 +2382,9 @@ class NameCheckVisitor(node_visitor.ReplacingNodeVisitor):
             ret = AnyValue(AnySource.inference)
         else:
             ret = unite_values(*return_values)
+            if not has_return and not isinstance(node, ast.Lambda):
+                # The end of the function body is reachable, so it may also return None.
+                ret = unite_values(ret, KnownNone)
         if isinstance(node, ast.Lambda):
             has_return_annotation = False
         else:
